@@ -321,7 +321,7 @@ def one_case(args):
 def run(res):
     exe = build.fastpasta("rel")
     wd = scratch("c13")
-    n = 300 if res.tier == "quick" else 8000
+    n = 300 if res.tier == "quick" else 30000
     for o in pmap(one_case, [(exe, wd, res.seed, c, res.tier) for c in range(n)]):
         res.evaluations += 2
         res.count("frames_judged", o["frames"])
